@@ -14,6 +14,7 @@ pub fn iabs(t: u32, nlt: u32) -> bool { ((t < 500_000_000) == (nlt < 500_000_000
 /// what `evaluate_older` decides
 pub fn irel(t: u32, nseq: u32) -> bool { nseq & (1 << 31) == 0 && (t & 0x0040_0000) == (nseq & 0x0040_0000) && (t & 0xffff) <= (nseq & 0xffff) }
 
+// @h c13_after_rule timeout=900 mem=4
 #[cfg_attr(kani, kani::proof)]
 #[cfg_attr(kani, kani::unwind(3))]
 pub fn c13_after_rule() {
@@ -30,6 +31,7 @@ pub fn c13_after_rule() {
     }
 }
 
+// @h c13_older_rule timeout=900 mem=4
 #[cfg_attr(kani, kani::proof)]
 #[cfg_attr(kani, kani::unwind(3))]
 pub fn c13_older_rule() {
@@ -48,6 +50,7 @@ pub fn c13_older_rule() {
 
 /// The interpreter's BIP65 finality test is `Sequence::enables_absolute_lock_time`; the lock
 /// classes of `w::c13` carry "nSequence == 0xffffffff" as their third component.
+// @h c13_final_rule timeout=900 mem=4
 #[cfg_attr(kani, kani::proof)]
 pub fn c13_final_rule() {
     let nseq = sym::u32_();
@@ -150,7 +153,9 @@ macro_rules! hr {
         pub fn $name() { hash_rule($k, $n) }
     };
 }
-// @h c13_hash_rule_* timeout=1800 mem=10 covers=any
+// @h c13_hash_rule_* timeout=1800 mem=4 covers=any
+// @h c13_hash_rule_hash256_* tier=thorough
+// @h c13_hash_rule_ripemd160_* tier=thorough
 hr!(c13_hash_rule_sha256_0, 0, 0);
 hr!(c13_hash_rule_sha256_1, 0, 1);
 hr!(c13_hash_rule_sha256_31, 0, 31);
